@@ -29,9 +29,10 @@ func (k Keeper) WeightedMode(ctx context.Context, reports []types.MicroReport, m
 		totalReporterPower += r.Power
 	}
 
-	// find the max frequency
+	// find the max frequency; values with exactly equal weight are resolved by a fixed rule
+	// (the lexicographically smallest value wins) so that the result does not depend on map iteration order
 	for value, frequency := range frequencyMap {
-		if frequency > maxFrequency {
+		if frequency > maxFrequency || (frequency == maxFrequency && frequency > 0 && value < mode) {
 			maxFrequency = frequency
 			mode = value
 		}
